@@ -1,0 +1,6 @@
+//go:build !verif
+// +build !verif
+
+package state
+
+func verifHook(site string) {}
